@@ -144,7 +144,8 @@ def tree_1(ctx, rep, only=None):
                    'Param created without the parent it is placed under')
         if isinstance(n, ast.AugAssign) and isinstance(n.op, ast.Add) and isinstance(n.value, ast.Name):
             v = n.value.id
-            body = getattr(getattr(n, '_parent', None), 'body', [])
+            from ..model import block_of
+            body = block_of(n)
             ok = any(isinstance(s, ast.For) and norm(s.iter) == v and any(
                 isinstance(b, ast.Assign) and norm(b.targets[0]) == '%s.parent' % norm(s.target) and norm(b.value) == parent
                 for b in s.body) for s in body)
